@@ -186,6 +186,65 @@ fn check_tree<T: Scalar>(spec: &Spec, alpha: &[f64], depth: usize, st: &mut Stat
 }
 
 /// (ii) constant streams are reproduced exactly (Q) / within (4N+8) ulp (f64)
+/// Long histories at f64: every Z5 cycle of period <= 3 extended to `len` updates; interval and
+/// definition at every step (behaviour keyed on the number of updates or evictions).
+fn long_definition(spec: &Spec, len: usize, st: &mut Stats, sink: &Sink) {
+    st.configs += 1;
+    let n = spec.n;
+    let is_ema = matches!(spec.kind, Kind::Ema | Kind::EmaAlpha);
+    for cyc in crate::explore::cycles(&Z5, 3) {
+        let hist: Vec<f64> = (0..len).map(|i| cyc[i % cyc.len()]).collect();
+        let r = guard(|| {
+            let mut v = build::<f64>(spec);
+            // running reference state for Ema (the batch form is O(t) per step)
+            let mut e = 0.0f64;
+            for i in 0..len {
+                v.update(hist[i]);
+                let w_ema = if spec.kind == Kind::Ema { 2.0 } else if spec.kind == Kind::EmaAlpha { spec.p[0] } else { 0.0 } / (n as f64 + 1.0);
+                e = if i == 0 { hist[0] } else { w_ema * hist[i] + (1.0 - w_ema) * e };
+                let Some(g) = v.last() else { continue };
+                let h = &hist[..=i];
+                let w = if is_ema { h } else { refs::window(h, n) };
+                let (lo, hi) = (refs::minv(w), refs::maxv(w));
+                let slack = 1e-9 * (1.0 + lo.abs().max(hi.abs()));
+                if g < lo - slack || g > hi + slack {
+                    return Some((i, "interval", format!("output {:e} outside [{:e}, {:e}] spanned by the averaged values", g, lo, hi)));
+                }
+                let ok = match spec.kind {
+                    Kind::Sma => (g - refs::mean(w)).abs() <= slack,
+                    Kind::Ema | Kind::EmaAlpha => (g - e).abs() <= slack,
+                    _ => {
+                        let (sg, of) = alma_params(spec);
+                        // the last 2N values determine both renderings
+                        let tail = &h[h.len().saturating_sub(4 * n + 4)..];
+                        let _ = tail;
+                        (g - refs::alma_insertion(h, n, sg, of)).abs() <= slack || (g - refs::alma_positional(h, n, sg, of)).abs() <= slack
+                    }
+                };
+                if !ok {
+                    return Some((i, "definition", format!("output {:e} is not the defined average of its window", g)));
+                }
+            }
+            None
+        });
+        st.transitions += len as u64;
+        st.states += len as u64;
+        st.oracle_evals += len as u64;
+        st.traces += 1;
+        match r {
+            Ok(Some((i, clause, d))) => {
+                sink.push(Violation::new("C04", spec, clause, "f64", &hist[..=i], format!("cycle {:?} repeated, step {}: {}", cyc, i, d)));
+                return;
+            }
+            Ok(None) => {}
+            Err(m) => {
+                sink.push(Violation::new("C04", spec, "panicked", "f64", &hist, m));
+                return;
+            }
+        }
+    }
+}
+
 /// Conditioning of Alma's running weighted sums on a constant stream: once the window has slid,
 /// every held sample carries w(N-1); when a sample with a larger weight w_max has been evicted,
 /// its rounding residue (eps * w_max * |c|) is seen relative to the remaining N * w(N-1).
@@ -262,6 +321,7 @@ pub fn run(ctx: &Ctx) -> CheckOutput {
             let sink = Sink::new();
             constant_streams::<Q>(&spec, &mut st, &sink);
             constant_streams::<f64>(&spec, &mut st, &sink);
+            long_definition(&spec, if quick { 300 } else { 1200 }, &mut st, &sink);
             JobOut { stats: st, viols: sink.take(), samples: vec![] }
         }));
     }
